@@ -224,7 +224,10 @@ def run(ctx):
                 "and per endpoint the CAUSES 5xx for the whole retry budget, undecodable body, endpoint never answering until the client's timeout, request context "
                 "cancelled meanwhile, connection refused - PAR endpoint at login, token endpoint at the callback - and session-store failure plain / with a deadline "
                 "error / with a cancellation - callback, logout, local logout -, persistent, alternating with successes, mixed and random) "
-                "x ingress prefix {'', /app, nested, look-alike /o} x mode {standalone, SSO server} x scheme, counter-reset scenarios; "
+                "x ingress prefix {'', /app, nested root + /app, nested /a + /a/b, three levels, look-alike /o} x mode {standalone, SSO server (root, prefix, nested)} x scheme, counter-reset scenarios; "
+                "NESTED ingress paths on one host: histories that leave a stale counter on the less specific path (a failed request whose automatic retry succeeded, the login abandoned "
+                "at the provider; one and two failures; any cause) followed by persistent failures of login / callback / logout / local logout under the more specific path - the browser "
+                "then sends two counters per request, longest Path first -, also with a session and across a complete login under the nested path; "
                 "rate limit: enabled x logins {0,1,5} x window {1s,5s,0.5s,1.5s} x gaps {0,1ns,w/2,w-1ns,w,w+1ns,1s} with/without session, x cookie-name configurations as main.go derives them (default, custom cookie.prefix, SSO mode with sso.session-cookie-name; package variables set and restored around each configuration); chains also under a custom prefix; request-target forms (wwh retryloc: absolute-form for the ingress / a foreign host, scheme-only, foreign Host header, x X-Forwarded-Host) x endpoint x failure cause, retries followed; "
                 "distinct_nontrivial counts distinct status chains per configuration plus distinct (logins, window, expectation, count) states")
     ctx.assumptions += [
